@@ -1,6 +1,7 @@
 import I18n.Lemmas.PerlBraceRe
 import I18n.Lemmas.PyBraceOwn
 import I18n.Lemmas.PyBraceFormat
+import I18n.Lemmas.PyBraceQuirk
 import I18n.Lemmas.PyBraceTables
 /-!
 # C13 — the brace-format parsers agree with the languages they model
@@ -129,6 +130,13 @@ theorem flat_formats_partial {s : List Char} {r : PyBrace.Result} {a : Args} (h 
     (hflat : PyBrace.Flat s) (hq : PyBrace.QuirkFree s) (hm : PyBrace.Matches r a) : format s a = .ok () :=
   PyBrace.parseWith_flat_formats (cfg := PyBrace.liveCfg) (by decide) s r a h hflat hq hm
 
+/-- the restriction of `flat_formats_partial` is exact: an accepted flat string one of whose fields has one of the two
+    typing gaps cannot be formatted by `str.format`, whatever the arguments (so for accepted flat strings that have
+    arguments of the reported shape at all, "formats with every such argument object" holds iff `QuirkFree`) -/
+theorem quirk_rejected {s : List Char} {r : PyBrace.Result} (h : PyBrace.parse s = .ok r) (_hflat : PyBrace.Flat s)
+    (hq : ¬ PyBrace.QuirkFree s) (a : Args) : format s a ≠ .ok () :=
+  PyBrace.parseWith_quirk_rejected (cfg := PyBrace.liveCfg) (by decide) s r h hq a
+
 /-- `{:,x}` is accepted with the single argument 0 of type `int` … -/
 theorem witness_accepted :
     PyBrace.parse "{:,x}".toList = .ok { items := [.field ⟨false, true, false⟩],
@@ -201,5 +209,33 @@ example : ¬ parseOK "{:{0[}]}}".toList := by
 example : format "{0:d} of {total!r:>10}{{}}".toList { pos := [.int 3], kw := [("total".toList, .float)] } = .ok () := by rfl
 example : format "{:d}".toList { pos := [.str], kw := [] } = .error (.spec .unknownCode) := by rfl
 example : format "{}{0}".toList { pos := [.str], kw := [] } = .error .autoToManual := by rfl
+
+/-- `flat_formats_partial` is not vacuous: its hypotheses hold for a concrete accepted string and concrete arguments
+    (an `int` for position 0, a `float` for the name `total`) -/
+example : format "{0:d} of {total!r:>10}".toList { pos := [.int 3], kw := [("total".toList, .float)] } = .ok () := by
+  have hmk : markup "{0:d} of {total!r:>10}".toList = .ok
+      [{ literal := [], field := some { name := "0".toList, spec := "d".toList, conversion := none, needsExpanding := false } },
+       { literal := " of ".toList, field := some { name := "total".toList, spec := ">10".toList, conversion := some 'r', needsExpanding := false } }] := by rfl
+  have hp : PyBrace.parse "{0:d} of {total!r:>10}".toList = .ok ⟨[.field ⟨false, true, false⟩, .lit " of ".toList, .field ⟨true, true, true⟩], [(.idx 0, [⟨false, ⟨false, true, false⟩⟩]), (.name "total".toList, [⟨false, ⟨true, true, true⟩⟩])]⟩ := by rfl
+  refine flat_formats_partial hp ?_ ?_ ?_
+  · intro chunks hm f hf
+    rw [hmk] at hm; cases hm
+    simp only [PyBrace.fieldsOf, List.filterMap_cons, List.filterMap_nil, List.mem_cons, List.not_mem_nil, or_false] at hf
+    rcases hf with rfl | rfl <;> rfl
+  · intro chunks hm f hf
+    rw [hmk] at hm; cases hm
+    simp only [PyBrace.fieldsOf, List.filterMap_cons, List.filterMap_nil, List.mem_cons, List.not_mem_nil, or_false] at hf
+    rcases hf with rfl | rfl
+    · intro sf hs
+      have : PyBrace.scanSpec "d".toList = some ⟨none, none, none, false, false, none, false, none, some 'd'⟩ := by rfl
+      rw [this] at hs; cases hs; rfl
+    · intro sf hs
+      have : PyBrace.scanSpec ">10".toList = some ⟨none, some '>', none, false, false, some "10".toList, false, none, none⟩ := by rfl
+      rw [this] at hs; cases hs; rfl
+  · intro k as hk
+    simp only [List.mem_cons, Prod.mk.injEq, List.not_mem_nil, or_false] at hk
+    rcases hk with ⟨rfl, rfl⟩ | ⟨rfl, rfl⟩
+    · exact ⟨.int 3, rfl, by simp [PyBrace.hasType], by simp [PyBrace.chrOK]⟩
+    · exact ⟨.float, rfl, by simp [PyBrace.hasType], trivial⟩
 
 end I18n.Props.C13
